@@ -60,7 +60,7 @@ def _one(ctx, i, rep=None):
     text = RP.pr_grammar(g)
     cfg = P.random_cfg(r)
     try:
-        mm = metamodel_from_str(text, **cfg)
+        mm = P.make_mm(text, **cfg)
     except TextXError as e:
         ctx.count('grammar_rejected')
         ctx.violation(classify_grammar(g, e), 'generated grammar rejected: %s' % str(e)[:120], {'grammar': text}, rep)
